@@ -722,6 +722,10 @@ class Models:
         raise Unsupported("set construction")
 
     def dict_from_pairs(self, I, pairs):
+        if type(pairs).__name__ == "SymComp":
+            from .sympy_model import renaming_from_pairs
+
+            return renaming_from_pairs(I, pairs)
         if isinstance(pairs, PyList):
             d = PyDict()
             for k, v in pairs.items:
